@@ -347,6 +347,15 @@ pub fn valid_case(r: &Req) -> bool {
     if is_int_t(t) && (frac("xs") || frac("ys") || (r.has("v") && r.s("v").contains('/'))) {
         return false;
     }
+    // infinities: float encodings, and only where the result is a comparison or a count
+    let inf = |k: &str| r.list(k).iter().any(|x| x.ends_with("inf"));
+    if inf("xs") || inf("ys") || (r.has("v") && r.s("v").ends_with("inf")) {
+        if !matches!(t, "f64" | "of64" | "f32")
+            || !matches!(m, "vmax" | "vmin" | "vargmax" | "vargmin" | "vfirst" | "vlast" | "count_valid" | "count_none" | "count"
+                | "vcount_value" | "max" | "min" | "argmax" | "argmin" | "first" | "last" | "count_value") {
+            return false;
+        }
+    }
     if V_TWO.contains(&m) {
         if r.list("ys").len() != xs.len() || (has_null("ys") && !nullable_t(t)) {
             return false;
@@ -465,6 +474,29 @@ impl Emit {
             }
         }
     }
+    /// order-only aggregations on series containing the two infinities (float encodings only)
+    fn inf_series(&mut self, xs: &[String]) {
+        let has_null = xs.iter().any(|x| x == "_");
+        let sx = join(xs);
+        let ts: &[&str] = &["f64", "of64", "f32"];
+        for m in ["vmax", "vmin", "vargmax", "vargmin", "vfirst", "vlast", "count_valid", "count_none"] {
+            let t = self.rot(ts);
+            let s = self.src(false);
+            self.out.push(format!("agg_{} t={} src={} xs={}", m, t, s, sx));
+        }
+        for v in ["inf", "-inf", "_"] {
+            let t = self.rot(ts);
+            let s = self.src(false);
+            self.out.push(format!("agg_vcount_value t={} src={} v={} xs={}", t, s, v, sx));
+        }
+        if !has_null {
+            for m in ["max", "min", "argmax", "argmin", "first", "last"] {
+                let t = self.rot(&["f64", "f32"]);
+                let s = self.src(true);
+                self.out.push(format!("agg_{} t={} src={} xs={}", m, t, s, sx));
+            }
+        }
+    }
     fn bool_series(&mut self, xs: &[String], pss: &[u64]) {
         let has_null = xs.iter().any(|x| x == "_");
         let sx = join(xs);
@@ -542,6 +574,14 @@ pub fn generate(tier: &str, rng: &mut Rng) -> (Vec<String>, bool) {
             e.bool_series(&xs, &[0]);
         }
     }
+    // the infinities: extrema, arg-extrema, first / last and the counts only compare and count
+    for len in 1..=(if thorough { 5 } else { 4 }) {
+        for xs in all_series(&["_", "-inf", "3", "inf"], len) {
+            if xs.iter().any(|x| x.ends_with("inf")) {
+                e.inf_series(&xs);
+            }
+        }
+    }
     for len in 0..=max2 {
         let all = all_series(alpha, len);
         for xs in &all {
@@ -605,6 +645,6 @@ pub fn generate(tier: &str, rng: &mut Rng) -> (Vec<String>, bool) {
 
 pub fn rule(tier: &str) -> String {
     let th = tier == "thorough";
-    format!("every method of AggValidBasic (20 incl. deprecated count), AggBasic (12) and AggValidExt (n_vsum_filter, n_sum_filter, vmean_filter, vkurt) called on the real code; exhaustive stream: every series over {{null,-1,0,2}} up to length {} (hence every permutation, ties, constant, all-null, empty, singleton) x every min_periods 0..=len+1 x every present/absent/null match value; boolean series over {{null,0,1}} to length {}; every PAIR of series over {{null,-1,0,2}} to length {} x every min_periods; every (series, mask over {{null,0,1}}) to length {}; element types rotated over f64,f32,i32,Option<f64>,Option<i32>,bool,Option<bool>, sources over owned Vec / borrowed titer() / opt() view; random stream: lengths to {}, dyadic values k/8 |k|<=64 or integers |k|<=20, 9 null patterns, each case repeated under 5 random shuffles applied on the implementation side only (symmetric aggregations). non-trivial = distinct request with >= 2 input elements and >= 1 non-null output token.",
+    format!("every method of AggValidBasic (20 incl. deprecated count), AggBasic (12) and AggValidExt (n_vsum_filter, n_sum_filter, vmean_filter, vkurt) called on the real code; the extrema, arg-extrema, first / last and the counts also on every series over {{null,-inf,3,+inf}} up to length 4 (thorough 5) containing an infinity, float encodings (the model reads +-inf as +-2^1100: these functions only compare and count); exhaustive stream: every series over {{null,-1,0,2}} up to length {} (hence every permutation, ties, constant, all-null, empty, singleton) x every min_periods 0..=len+1 x every present/absent/null match value; boolean series over {{null,0,1}} to length {}; every PAIR of series over {{null,-1,0,2}} to length {} x every min_periods; every (series, mask over {{null,0,1}}) to length {}; element types rotated over f64,f32,i32,Option<f64>,Option<i32>,bool,Option<bool>, sources over owned Vec / borrowed titer() / opt() view; random stream: lengths to {}, dyadic values k/8 |k|<=64 or integers |k|<=20, 9 null patterns, each case repeated under 5 random shuffles applied on the implementation side only (symmetric aggregations). non-trivial = distinct request with >= 2 input elements and >= 1 non-null output token.",
         if th { 6 } else { 5 }, if th { 8 } else { 6 }, if th { 4 } else { 3 }, if th { 4 } else { 3 }, if th { 200 } else { 60 })
 }
